@@ -205,13 +205,10 @@ static void print_hist(const int *seq, int len)
 	printf("]");
 }
 
-int main(int argc, char **argv)
+static int load_ops(const char *path)
 {
-	static ans_t fresh[MAXOPS];
-	if (argc < 4) return 2;
-	image = argv[1];
-	FILE *f = fopen(argv[2], "r");
-	if (!f) return 2;
+	FILE *f = fopen(path, "r");
+	if (!f) return -1;
 	char line[600];
 	while (nops < MAXOPS && fgets(line, sizeof(line), f)) {
 		op_t *o = &ops[nops];
@@ -227,6 +224,16 @@ int main(int argc, char **argv)
 		nops++;
 	}
 	fclose(f);
+	return 0;
+}
+
+#ifndef READER_HIST_NO_MAIN
+int main(int argc, char **argv)
+{
+	static ans_t fresh[MAXOPS];
+	if (argc < 4) return 2;
+	image = argv[1];
+	if (load_ops(argv[2])) return 2;
 
 	readers_t r;
 	for (int i = 0; i < nops; ++i) {
@@ -362,3 +369,4 @@ int main(int argc, char **argv)
 	printf("}\n");
 	return mismatches ? 1 : 0;
 }
+#endif
